@@ -11,14 +11,10 @@ complex axis the last one (`Sens.normAxes`).  Answers are rationals as `num den`
 namespace DirectVerif.Driver.C09
 open DirectVerif DirectVerif.Driver DirectVerif.Sens
 
-def pairs : List Int → List (Rat × Rat)
-  | a :: b :: rest => ((a : Rat), (b : Rat)) :: pairs rest
-  | _ => []
-
-/-- split `(batch, coil, pixels, 2)` data into batch items `[coil][pixel]` -/
+/-- split `(batch, coil, pixels, 2)` data into batch items `[coil][pixel]` (`Sens.toSMap`: row-major offsets) -/
 def toMaps (b c px : Nat) (data : List Int) : Option (List (SMap Rat)) :=
   if data.length ≠ b * c * px * 2 then none else
-  some ((chunksOf (c * px * 2) data).map fun item => (chunksOf (px * 2) item).map pairs)
+  some ((List.range b).map fun bi => toSMap b c px data bi)
 
 def fmtMaps (shape : List Int) (ms : List (SMap Rat)) : String :=
   let flat : List Int := ms.flatMap fun m => m.flatMap fun coil => coil.flatMap fun (re, im) =>
